@@ -48,7 +48,7 @@ Qed.
 
 (* ---- validity as a proposition ---- *)
 Definition nl_accepts (c : bytes) : Prop :=
-  nl_shape c /\ (nl_eleven_test c \/ nl_remainder_10_as_0 c \/ nl_97_test c).
+  nl_shape c /\ (nl_eleven_test c \/ nl_97_test c).
 
 Lemma all_digits_sub c lo hi :
   (forall i, (lo <= i < hi)%nat -> is_digit (nthb i c) = true) -> (hi <= List.length c)%nat -> all_digits (sub lo hi c) = true.
@@ -76,7 +76,7 @@ Proof.
       - intros i Hi. unfold digit_at. do 9 (destruct i as [|i]; [cbn [nthb nth]; assumption|]). lia.
       - unfold beq in B9. cbn [nthb nth] in *. apply dv_inj. unfold dv. change (bZ "B") with 66. lia.
       - intros i Hi. unfold digit_at. do 10 (destruct i as [|i]; [lia|]). do 2 (destruct i as [|i]; [cbn [nthb nth]; assumption|]). lia. }
-    unfold nl_eleven_test, nl_remainder_10_as_0, nl_97_test, nl_weighted, dig, number, nl_mod11 in *.
+    unfold nl_eleven_test, nl_97_test, nl_weighted, dig, number, nl_mod11 in *.
     change (sub 0 9 [x; b; b0; b1; b2; b3; b4; b5; b6; b7; b8; b9]) with [x; b; b0; b1; b2; b3; b4; b5; b6] in *.
     change (sub 10 12 [x; b; b0; b1; b2; b3; b4; b5; b6; b7; b8; b9]) with [b8; b9] in *.
     cbn [digs map wsum nl_mults nthb nth] in *. cbv zeta in V.
@@ -92,7 +92,7 @@ Proof.
     rewrite nl_mod97_spec; auto; try (explode c L; reflexivity).
     pose proof (dv_digit _ (Dg1 8%nat ltac:(lia))) as R8.
     explode c L.
-    unfold nl_eleven_test, nl_remainder_10_as_0, nl_97_test, nl_weighted, dig, number, nl_mod11 in *.
+    unfold nl_eleven_test, nl_97_test, nl_weighted, dig, number, nl_mod11 in *.
     change (sub 0 9 [x; b; b0; b1; b2; b3; b4; b5; b6; b7; b8; b9]) with [x; b; b0; b1; b2; b3; b4; b5; b6] in *.
     change (sub 10 12 [x; b; b0; b1; b2; b3; b4; b5; b6; b7; b8; b9]) with [b8; b9] in *.
     cbn [digs map wsum nl_mults nthb nth] in *. cbv zeta.
@@ -102,27 +102,16 @@ Proof.
     destruct (9 <? _) eqn:E; lia.
 Qed.
 
-(* published rule => accepted; the converse fails exactly on remainder 10 with check digit 0 *)
-Theorem nl_published_sound c : Spec_NL c -> valid_NL c = true.
-Proof. intros (S & A). apply valid_NL_iff. right. split; [exact S|]. tauto. Qed.
-
-Theorem valid_NL_iff_spec_unless_remainder_10 c :
-  ~ nl_remainder_10_as_0 c -> (valid_NL c = true <-> c = [] \/ Spec_NL c).
-Proof. intro N. rewrite valid_NL_iff. unfold nl_accepts, Spec_NL. tauto. Qed.
-
-Theorem nl_published_refuted :
-  exists c, valid_NL c = true /\ c <> [] /\ ~ Spec_NL c.
-Proof.
-  exists (bs "000000050B01"). split; [vm_compute; reflexivity|]. split; [discriminate|].
-  intros (_ & [A|A]); vm_compute in A; discriminate.
-Qed.
+(* accepted exactly when the published rule holds *)
+Theorem valid_NL_iff_spec c : valid_NL c = true <-> c = [] \/ Spec_NL c.
+Proof. rewrite valid_NL_iff. unfold nl_accepts, Spec_NL. tauto. Qed.
 
 (* ---- single-digit errors ----
    Each test on its own detects every single-digit error in the digits it covers: the 11-test
    covers the 9 digits before "B" (weights 9..2 and -1, all coprime to 11) and ignores the two
    digits after "B"; the mod-97 test covers all 11 digits (powers of ten are coprime to 97).
    An accepted code with one digit changed is therefore accepted again only by switching from
-   one test to the other (or, in the implementation, to the remainder-10 clause). *)
+   one test to the other. *)
 Lemma shift_detect (N N' w d d' m r : Z) :
   9 < m -> Z.gcd w m = 1 -> digit d -> digit d' -> d <> d' ->
   N' - N = w * (d' - d) -> N mod m = r -> N' mod m = r -> False.
